@@ -21,6 +21,11 @@ def run(res):
     Kr = wc.base(Acts={'create', 'add', 'remove', 'toggle', 'reentrant'}, Ids={1, 2}, MaxAuto=0, Types=wc.T2, Bases=wc.BASES2, MaxQ=2,
                  **wc.comps(C3, falsy={'c3'}))
     wc.check_and_replay(res, 'c02_reentrant', Kr, own, depth_all=0, walks=10000 if th else 1000, walk_len=30)
+    # create_entity(x, y) with x and y of ONE type (the repository's own test does it): x is attached and replaced in turn
+    Kd = wc.base(Acts={'create', 'create2', 'createdup', 'remove', 'delete', 'toggle', 'process'}, Ids={1}, MaxAuto=1, Types=wc.T2, Bases=wc.BASES2,
+                 MaxQ=4, **wc.comps(C3, falsy={'c2'}))
+    wc.check_and_replay(res, 'c02_create_same_type', Kd, own, depth_all=0, walks=10000 if th else 1000, walk_len=20)
+    wc.switch_run(res, 'c02_dup', Kd, 'CreateAttachesInTurn', ('RegisteredIffAttached',))
     # processors have the same lifecycle (on_add / on_remove without arguments)
     P = wc.procs({'p1': ('P1', ('on_add', 'on_remove')), 'q': ('Q', ('on_remove', 'probe'))}, {'P1': ((), 0), 'Q': ((), 5)})
     K2 = wc.base(Acts={'add', 'remove', 'clear', 'toggle', 'probe', 'proc', 'process'}, Ids={1}, MaxAuto=1, Types=wc.T2, Bases=wc.BASES2,
